@@ -150,3 +150,7 @@ pub fn replay(ctx: &Ctx, sub: &str, case: &Value) -> Result<(), String> {
     ctx.run_fixed(sub, &c, eval);
     Ok(())
 }
+
+pub fn fuzz_strategy() -> impl Strategy<Value = Case> {
+    strategy()
+}
